@@ -4,7 +4,9 @@ import (
 	"bytes"
 	"encoding/binary"
 	"encoding/hex"
+	"errors"
 	"fmt"
+	"io"
 	"net"
 	"os"
 	"sort"
@@ -239,15 +241,16 @@ type run struct {
 	dirty   bool // the runner's copy of the maps is out of date
 	fresh   bool // x.dump is what the kernel maps hold now
 
-	viol     []violation
-	cls      map[string]bool
-	log      []string
-	nt       bool
-	probes   int
-	tx       int
-	txDouble int // transmitted replies whose IP header sum needs two end-around carries
-	skipped  int
-	harness  string // harness-side failure (inconclusive)
+	viol      []violation
+	cls       map[string]bool
+	log       []string
+	nt        bool
+	probes    int
+	tx        int
+	txDouble  int            // transmitted replies whose IP header sum needs two end-around carries
+	expProbes map[string]int // frames whose lookup identity has an expired, uncleaned lease: by path / clock side
+	skipped   int
+	harness   string // harness-side failure (inconclusive)
 }
 
 func (x *run) logf(f string, a ...any) { x.log = append(x.log, fmt.Sprintf(f, a...)) }
@@ -260,7 +263,7 @@ func (x *run) fail(sig, f string, a ...any) {
 func newRun(rc *bpfnative.Client, tc *tcase) (*run, error) {
 	x := &run{tc: tc, g: newGeom(tc.Cfg), rc: rc, conn: &capConn{}, cls: map[string]bool{},
 		offered: map[string]net.IP{}, prevIP: map[string]net.IP{}, gone: map[string]string{}, goneCid: map[string]string{},
-		vlanIn: map[[2]uint16]bool{}, flagged: map[string]bool{}, lastAcc: map[string]string{}, events: map[string]bool{}, dirty: true, sites: map[string][]int{}}
+		vlanIn: map[[2]uint16]bool{}, expProbes: map[string]int{}, flagged: map[string]bool{}, lastAcc: map[string]string{}, events: map[string]bool{}, dirty: true, sites: map[string][]int{}}
 	for i, s := range rc.Sites() {
 		x.sites[s.Map] = append(x.sites[s.Map], i)
 	}
@@ -697,6 +700,7 @@ type txReply struct {
 	v     variant
 	p     parsed
 	stale bool
+	idIP  net.IP // address of the userspace lease the program's lookup identity maps to (nil: none)
 }
 
 func ip4(ip net.IP) (a [4]byte) {
@@ -965,6 +969,23 @@ func (x *run) message(o op) {
 			x.fail("C03/native/fault", "%s: %v", desc, res.Fault)
 			continue
 		}
+		// the identity the program looked the subscriber up by (whatever it decided afterwards) and, if that
+		// identity's lease has run out but is still in userspace's table, on which side of the entry's
+		// lease_expiry VALUE the kernel clock lies in the program's own comparison (ktime seconds > lease_expiry)
+		by := x.hitBy(&res)
+		idLease, idState := lease, state
+		if by == "circuit-id" {
+			idLease, idState = cidLease, cidState
+		}
+		clockSide := ""
+		if idState == "expired-uncleaned" && idLease != nil && by != "unknown" {
+			clockSide = "kernel-clock-before-expiry-value"
+			if clock/1_000_000_000 > uint64(idLease.ExpiresAt.Unix()) {
+				clockSide = "kernel-clock-past-expiry-value"
+			}
+			x.expProbes["by-"+by]++
+			x.expProbes["by-"+by+":"+clockSide]++
+		}
 		switch res.Verdict {
 		case bpfnative.XDPTx:
 			x.tx++
@@ -973,7 +994,6 @@ func (x *run) message(o op) {
 				x.txDouble++
 				x.cls["ipcsum:double-fold"] = true
 			}
-			by := x.hitBy(&res)
 			x.cls["tx-by:"+by] = true
 			x.logf("  - %s -> XDP_TX (%d bytes, assignment found by %s)", desc, len(res.Out), by)
 			stale := false
@@ -993,7 +1013,14 @@ func (x *run) message(o op) {
 			}
 			if st != "live" && st != "at-expiry-instant" {
 				stale = true
-				x.fail("C03/stale/"+st+"/by-"+by, "%s %s from c%d (%s): userspace has no unexpired lease for this client (found by %s: %s) but the fast path transmits a reply\nframe %x\nreply %x",
+				sig := "C03/stale/" + st + "/by-" + by
+				if st == "expired-uncleaned" && clockSide != "" {
+					// two different defects give this symptom: the entry's lease_expiry (Unix seconds) is compared
+					// with seconds since boot, so for a real uptime the program's test cannot fire (KF-C03-9/10/11);
+					// or the kernel clock IS past the value and the program transmits all the same (not listed)
+					sig += "/" + clockSide
+				}
+				x.fail(sig, "%s %s from c%d (%s): userspace has no unexpired lease for this client (found by %s: %s) but the fast path transmits a reply\nframe %x\nreply %x",
 					desc, kind, c, cl.Access, by, st, fr, res.Out)
 			}
 			p, what, detail := parseReply(res.Out)
@@ -1025,7 +1052,11 @@ func (x *run) message(o op) {
 				}
 				x.fail(sig, "%s: reply type %d to a %s (want %d; 0 = no reply at all)", desc, p.msgType, kind, want)
 			default:
-				txs = append(txs, txReply{v: v, p: p, stale: stale})
+				r := txReply{v: v, p: p, stale: stale}
+				if idLease != nil {
+					r.idIP = idLease.IP.To4()
+				}
+				txs = append(txs, r)
 			}
 		case bpfnative.XDPPass:
 			x.cls["verdict:PASS"] = true
@@ -1048,8 +1079,15 @@ func (x *run) message(o op) {
 	pkt, perr := dhcpv4.FromBytes(payload)
 	if perr != nil {
 		noReply = "unparseable-for-userspace/other"
-		if m.NoEnd {
-			noReply = "unparseable-for-userspace/no-end-option"
+		if m.NoEnd && errors.Is(perr, io.ErrUnexpectedEOF) {
+			// the listed shape (KF-C03-16/17) is exactly: the missing END option is the ONLY reason the packet
+			// does not parse (the same message with END parses)
+			m2 := m
+			m2.NoEnd = false
+			p2, _, _ := m2.payload()
+			if _, err2 := dhcpv4.FromBytes(p2); err2 == nil {
+				noReply = "unparseable-for-userspace/no-end-option"
+			}
 		}
 		x.logf("  userspace: packet does not parse (%v): server4 drops it", perr)
 	} else {
@@ -1083,6 +1121,10 @@ func (x *run) message(o op) {
 		}
 		desc := fmt.Sprintf("%s IHL=%d clock=%s", t.v.Enc.name(), t.v.Enc.IHL, t.v.Clock)
 		if reply == nil {
+			if perr != nil && t.idIP != nil {
+				// userspace has nothing to compare with; the address at least must be the one of the lease
+				x.cmp("yiaddr", t.p.yiaddr[:], t.idIP, kind+"/unparseable-for-userspace", desc)
+			}
 			x.fail("C03/agree/"+noReply+"/"+kind, "%s: fast path answered a %s (type %d, yiaddr %v) that userspace does not answer", desc, kind, t.p.msgType, net.IP(t.p.yiaddr[:]))
 			continue
 		}
@@ -1102,7 +1144,8 @@ func (x *run) message(o op) {
 		uopt := func(code uint8) []byte { return reply.Options.Get(dhcpv4.GenericOptionCode(code)) }
 		x.cmp("yiaddr", t.p.yiaddr[:], reply.YourIPAddr.To4(), kind, desc)
 		shape54 := kind
-		if x.tc.Cfg.Server == "zero" {
+		if x.tc.Cfg.Server == "zero" && bytes.Equal(uopt(54), []byte{0, 0, 0, 0}) && len(uopt(3)) == 4 && bytes.Equal(t.p.opts[54], uopt(3)) {
+			// the listed shape (KF-C03-15) is exactly: userspace sends 0.0.0.0, the program substitutes the pool's router
 			shape54 = "server-ip-unset"
 		}
 		x.cmp("opt54-server-id", t.p.opts[54], uopt(54), shape54, desc)
@@ -1364,15 +1407,16 @@ func (x *run) control(o op) {
 }
 
 type result struct {
-	viol     []violation
-	log      []string
-	classes  []string
-	nt       bool
-	probes   int
-	tx       int
-	txDouble int
-	skipped  int
-	harness  string
+	viol      []violation
+	log       []string
+	classes   []string
+	nt        bool
+	probes    int
+	tx        int
+	txDouble  int
+	expProbes map[string]int
+	skipped   int
+	harness   string
 }
 
 // execCase runs one case inside a synctest bubble (virtual time) and returns the verdict as a value.
@@ -1436,5 +1480,5 @@ func execInBubble(rc *bpfnative.Client, tc *tcase) result {
 	default:
 		x.cls["steps:>50"] = true
 	}
-	return result{viol: x.viol, log: x.log, classes: sortedSet(x.cls), nt: x.nt, probes: x.probes, tx: x.tx, txDouble: x.txDouble, skipped: x.skipped, harness: x.harness}
+	return result{viol: x.viol, log: x.log, classes: sortedSet(x.cls), nt: x.nt, probes: x.probes, tx: x.tx, txDouble: x.txDouble, expProbes: x.expProbes, skipped: x.skipped, harness: x.harness}
 }
